@@ -91,8 +91,8 @@ func judge(p refchess.Pos, r srch.Result, rec *evid.Rec, warmed bool) error {
 		if len(l.PV) >= 2 {
 			long = true
 		}
-		if len(l.PV) >= 44 && rec != nil {
-			rec.Class("pv_of_44_or_more_plies")
+		if len(l.PV) >= 46 && rec != nil {
+			rec.Class("pv_of_46_or_more_plies")
 		}
 	}
 	if lastPV != nil && r.Move.String() != lastPV[0] {
@@ -307,7 +307,7 @@ func TestC07(t *testing.T) {
 				t.Fatalf("%v", err)
 			}
 		})
-		rec.Rapid(t, "deep_pv", evid.Pick(64, 800), func(t *rapid.T) {
+		rec.Rapid(t, "deep_pv", evid.Pick(96, 1200), func(t *rapid.T) {
 			// very deep searches on tiny endgames: variations of 40..63 plies exercise the far end of the pv buffer
 			var p refchess.Pos
 			for i := 0; i < 8; i++ {
@@ -324,7 +324,7 @@ func TestC07(t *testing.T) {
 				p = refchess.MustFEN("k7/8/7K/8/8/8/P7/8 w - - 0 1")
 			}
 			p.Half = 0
-			c := Case{FEN: p.FEN(), TT: 16 << 20, Steps: []Step{{Depth: gen.Draw(t, 40, 63, "depth"), Nodes: evid.Pick(1500000, 4000000), Pick: -1}}}
+			c := Case{FEN: p.FEN(), TT: 16 << 20, Steps: []Step{{Depth: gen.Draw(t, 48, 63, "depth"), Nodes: evid.Pick(2500000, 6000000), Pick: -1}}}
 			rec.Class("deep_pv_search")
 			if err := checkCase(c, rec); err != nil {
 				rec.Fail("deep_pv", err.Error(), c)
